@@ -2,9 +2,18 @@
 """prints the prompt for a mutant-seeding sub-agent: tools/mutant_prompt.py C05"""
 import json, sys
 pid = sys.argv[1]
+round_ = sys.argv[2] if len(sys.argv) > 2 else ""      # e.g. "r2": second round, different kinds of change wanted
 p = next(json.loads(l) for l in open('/verif/properties.jsonl') if json.loads(l)["id"] == pid)
-wt = f"/tmp/mut-{pid.lower()}/wt"
-out = f"/tmp/mut-{pid.lower()}/out"
+base = f"/tmp/mut-{pid.lower()}{round_}"
+wt = f"{base}/wt"
+out = f"{base}/out"
+avoid = ""
+if round_:
+    import re
+    rows = re.findall(r'^\| ' + pid + r'-m\d \| (.*?) \|', open('/verif/DESIGN.md').read(), re.M)
+    if rows:
+        avoid = ("\n## Already tried (do NOT repeat these ideas or close variants; find different code sites and different failure modes)\n"
+                 + "\n".join(f"- {r}" for r in rows) + "\n")
 print(f"""You are testing how well a verification effort can detect realistic regressions in the Python project **pynenc** (a distributed task orchestrator with in-memory and SQLite backends). You get ONE semantic property the project is supposed to satisfy, and your own scratch git worktree of the repository at `{wt}` (already created; work ONLY there; never touch `/repo` and do not read anything under `/verif`).
 
 ## The property ({pid}): {p['title']}
@@ -14,6 +23,7 @@ Why the existing tests cannot settle it: {p['why_tests_cant']}
 Code it is anchored in: {', '.join(p['anchors']['files'])}
 Mechanisms meant to make it hold: {'; '.join(m['name'] + ' (' + m.get('where','') + ')' for m in p['anchors']['mechanism'])}
 
+{avoid}
 ## Your task
 Produce **two different** small source changes ("mutants") to the pynenc package (files under `{wt}/pynenc` or `{wt}/pynmon`) such that, for each one:
 1. the package still imports and the EXISTING test suite still passes (the change must not be caught by `pynenc_tests/`);
@@ -25,7 +35,7 @@ The two mutants must be different in kind (different code site or different fail
 
 ## How to work
 - Python: `/venv/bin/python` (pynenc's dependencies are installed; `PYTHONPATH={wt}` makes your worktree the imported package — verify with `python -c "import pynenc; print(pynenc.__file__)"`).
-- Read the anchored source files first. Then for each mutant: edit the worktree, run the most relevant existing tests, e.g. `cd {wt} && PYTHONPATH={wt} /venv/bin/python -m pytest -q -p no:cacheprovider pynenc_tests/unit/<area> > /tmp/mut-{pid.lower()}/log.txt 2>&1` (ALWAYS redirect pytest output to a file and read the tail of the file; never pipe it — some tests spawn processes that keep pipes open; do not run the whole suite (6 minutes) and do NOT run `pynenc_tests/integration/combinations` at all (multi-process, slow, flaky under load; the maintainer runs the full suite separately) — run only the unit directories and the small integration directories related to the files you touched, at most two pytest runs per mutant), write the demo, check it fails with the patch and passes without (NEVER use `git stash` — it is shared between worktrees; use `git diff > /tmp/mut-{pid.lower()}/cur.patch; git checkout -- .` and `git apply /tmp/mut-{pid.lower()}/cur.patch`).
+- Read the anchored source files first. Then for each mutant: edit the worktree, run the most relevant existing tests, e.g. `cd {wt} && PYTHONPATH={wt} /venv/bin/python -m pytest -q -p no:cacheprovider pynenc_tests/unit/<area> > {base}/log.txt 2>&1` (ALWAYS redirect pytest output to a file and read the tail of the file; never pipe it — some tests spawn processes that keep pipes open; do not run the whole suite (6 minutes) and do NOT run `pynenc_tests/integration/combinations` at all (multi-process, slow, flaky under load; the maintainer runs the full suite separately) — run only the unit directories and the small integration directories related to the files you touched, at most two pytest runs per mutant), write the demo, check it fails with the patch and passes without (NEVER use `git stash` — it is shared between worktrees; use `git diff > {base}/cur.patch; git checkout -- .` and `git apply {base}/cur.patch`).
 - Save each mutant as `{out}/m1/` and `{out}/m2/` containing: `patch.diff` (from `git -C {wt} diff`, must apply with `git apply` on a clean checkout of HEAD), `demo.py` (+ helper modules), and `notes.md` (what the change is, why a maintainer might make it, why the tests do not notice, exactly what it needs in order to manifest, which tests you ran and their result).
 - Leave the worktree CLEAN at the end (`git -C {wt} checkout -- . && git -C {wt} status --short` shows nothing).
 
